@@ -1,8 +1,8 @@
 #!/bin/bash
-# Re-test the stored seeded changes of rounds 5-7 (99) against the quick check of their own property.
+# Re-test the stored seeded changes of rounds 5-8 (111) against the quick check of their own property.
 cd /verif
 for id in C01 C02 C03 C04 C05 C06 C07 C08 C09 C10 C11 C12 C13 C14 C15 C16 C17 C18 C19 C20; do
-  for r in 5 6 7; do
+  for r in 5 6 7 8; do
     python3 tools/seedtest.py $id --stored --round $r 2>&1 | grep -E "CAUGHT|MISSED|APPLY" | sed "s/^/round $r /"
   done
 done
